@@ -8,6 +8,7 @@ import (
 	"os"
 	"strings"
 	"sync"
+	"sync/atomic"
 
 	"verifharness/fsx"
 )
@@ -50,6 +51,7 @@ func cmdFsCases(args []string) error {
 		}
 	})
 	dicts := sync.Pool{New: func() interface{} { return fsx.NewDict() }}
+	var caseNo int64
 	run := func(line string) {
 		d := dicts.Get().(*fsx.Dict)
 		defer dicts.Put(d)
@@ -59,6 +61,10 @@ func cmdFsCases(args []string) error {
 			byKey["infra:parse"]++
 			mu.Unlock()
 			return
+		}
+		// every second case runs with the model's names instantiated as string-prefix-related names
+		if n := atomic.AddInt64(&caseNo, 1); n%2 == 0 {
+			c = c.Renamed(fsx.PrefixNames)
 		}
 		for _, k := range kinds {
 			if *skipPre && !c.Assumed {
